@@ -13,6 +13,9 @@ void harness(void) {
     int states[3], i, p, len; char out[64];
     VERIF_BEGIN();
     for(i = 0; i < 3; i++) { ASSUME(st[i] <= 4); states[i] = st[i]; }
+#ifdef FIX_ST0
+    states[0] = FIX_ST0;   /* forked per query */
+#endif
     len = w_write_working(N, states, out, 64);
     OBS("out=[%s]", out);
     /* expected layout: "DATA;\n" { letter "#" id ";" } "ENDSEC;\n" */
